@@ -42,12 +42,13 @@ theorem foldl_pres {α β : Type} (π : Stack → β) (f : Stack → α → Stac
 @[simp] theorem base_armTtl (s : Stack) (ttl : Nat) (cb : Cb) : base (s.armTtl ttl cb).1 = base s := by
   unfold armTtl; split <;> rfl
 @[simp] theorem base_setInst (s : Stack) (i : Nat) (x : Instance) : base (s.setInst i x) = base s := rfl
-@[simp] theorem base_setTask (s : Stack) (i : Nat) (x : TaskSt) : base (s.setTask i x) = base s := rfl
+@[simp] theorem base_setTask (s : Stack) (i : Tid) (x : TaskSt) : base (s.setTask i x) = base s := rfl
 
 @[simp] theorem base_sendSd (s : Stack) (es : List SDEntry) (d : Dest) : base (s.sendSd es d) = base s := by
   unfold sendSd; split; rfl; simp only []; split; rfl; split <;> rfl
 
 @[simp] theorem base_with_flushLog (s : Stack) (x : List (Dest × List SDEntry)) : base { s with flushLog := x } = base s := rfl
+@[simp] theorem base_with_subLog (s : Stack) (x : List (Addr × Nat × List Eventgroup)) : base { s with subLog := x } = base s := rfl
 @[simp] theorem base_flushTo (s : Stack) (es : List SDEntry) (d : Dest) : base (s.flushTo es d) = base s := by
   unfold flushTo; rw [base_sendSd]; rfl
 
@@ -65,18 +66,18 @@ theorem foldl_pres {α β : Type} (π : Stack → β) (f : Stack → α → Stac
   unfold collectorTimeout; split; rfl; simp only []; rw [base_flushTo]; rfl
 
 @[simp] theorem base_createTask (s : Stack) (k : TaskKind) : base (s.createTask k).1 = base s := rfl
-@[simp] theorem base_cancelTask (s : Stack) (t : Nat) : base (s.cancelTask t) = base s := by
+@[simp] theorem base_cancelTask (s : Stack) (t : Tid) : base (s.cancelTask t) = base s := by
   unfold cancelTask; split; rfl; split; rfl; split <;> simp
-@[simp] theorem base_sleepFor (s : Stack) (tid : Nat) (t : TaskSt) (d : Nat) (pc : Pc) : base (s.sleepFor tid t d pc) = base s := by
+@[simp] theorem base_sleepFor (s : Stack) (tid : Tid) (t : TaskSt) (d : Nat) (pc : Pc) : base (s.sleepFor tid t d pc) = base s := by
   unfold sleepFor; split <;> simp
-@[simp] theorem base_finish (s : Stack) (tid : Nat) (t : TaskSt) : base (s.finish tid t) = base s := rfl
-@[simp] theorem base_sleepDone (s : Stack) (tid : Nat) : base (s.sleepDone tid) = base s := by
+@[simp] theorem base_finish (s : Stack) (tid : Tid) (t : TaskSt) : base (s.finish tid t) = base s := rfl
+@[simp] theorem base_sleepDone (s : Stack) (tid : Tid) : base (s.sleepDone tid) = base s := by
   unfold sleepDone; split; rfl; split <;> simp
 
 @[simp] theorem base_sendOffer (s : Stack) (i : Nat) (r : Dest) (b : Bool) : base (s.sendOffer i r b) = base s := by
   unfold sendOffer; split; rfl; split; rfl; simp
 
-@[simp] theorem base_stepOffer (s : Stack) (tid : Nat) (t : TaskSt) (i : Nat) : base (s.stepOffer tid t i) = base s := by
+@[simp] theorem base_stepOffer (s : Stack) (tid : Tid) (t : TaskSt) (i : Nat) : base (s.stepOffer tid t i) = base s := by
   unfold stepOffer
   simp only []
   split
@@ -179,7 +180,7 @@ theorem foldl_pres {α β : Type} (π : Stack → β) (f : Stack → α → Stac
   unfold subscriberStop; split; rfl
   simp only []
   have h1 : base (match ({ s with alive := false } : Stack).subTask with
-      | some tid => { ({ s with alive := false } : Stack).cancelTask tid with subTask := none }
+      | some tid => { ({ s with alive := false } : Stack).cancelTask (.subscribe, tid) with subTask := none }
       | none => ({ s with alive := false } : Stack)) = base s := by
     split
     · show base (({ s with alive := false } : Stack).cancelTask _) = base s; rw [base_cancelTask]; rfl
@@ -188,7 +189,7 @@ theorem foldl_pres {α β : Type} (π : Stack → β) (f : Stack → α → Stac
   · rw [foldl_pres base _ (fun s p => by simp)]; exact h1
   · exact h1
 
-@[simp] theorem base_stepSubscribe (s : Stack) (tid : Nat) (t : TaskSt) : base (s.stepSubscribe tid t) = base s := by
+@[simp] theorem base_stepSubscribe (s : Stack) (tid : Tid) (t : TaskSt) : base (s.stepSubscribe tid t) = base s := by
   unfold stepSubscribe
   simp only []
   have key : ∀ st : Stack, base (List.foldl (fun s p => s.sendSubscribe s.tm.subscribeTtl p.1 p.2) st (groupEntries st.subEntries)) = base st :=
@@ -255,7 +256,7 @@ theorem foldl_pres {α β : Type} (π : Stack → β) (f : Stack → α → Stac
   · simp
   · rw [base_replay]; rfl
 
-@[simp] theorem base_stepFind (s : Stack) (tid : Nat) (t : TaskSt) : base (s.stepFind tid t) = base s := by
+@[simp] theorem base_stepFind (s : Stack) (tid : Tid) (t : TaskSt) : base (s.stepFind tid t) = base s := by
   unfold stepFind; frame_cases
 
 @[simp] theorem base_discoveryStart (s : Stack) : base s.discoveryStart = base s := by
